@@ -210,7 +210,10 @@ func (c *Channel) Invoke(ctx context.Context, method string, req, resp interface
 	if method == "" || method[0] != '/' {
 		method = "/" + method
 	}
-	ctx, err := internal.ApplyPerRPCCreds(ctx, copts, fmt.Sprintf("inproc:0%s", method), true)
+	// the credentials' metadata belongs to the request only: the handler gets
+	// it as incoming metadata, but it does not become part of a context that
+	// the application can get hold of (ClientContext)
+	credsCtx, err := internal.ApplyPerRPCCreds(ctx, copts, fmt.Sprintf("inproc:0%s", method), true)
 	if err != nil {
 		return err
 	}
@@ -255,7 +258,7 @@ func (c *Channel) Invoke(ctx context.Context, method string, req, resp interface
 	// build the server context now: it snapshots the caller's outgoing
 	// metadata, which the caller may re-use once Invoke has returned (and
 	// Invoke can return, on cancellation, before the goroutine below runs)
-	svrCtx := makeServerContext(ctx)
+	svrCtx := makeServerContext(ctx, credsCtx)
 	go func() {
 		defer func() {
 			sts.Finish()
@@ -337,7 +340,11 @@ func (c *Channel) NewStream(ctx context.Context, desc *grpc.StreamDesc, method s
 	if method == "" || method[0] != '/' {
 		method = "/" + method
 	}
-	ctx, err := internal.ApplyPerRPCCreds(ctx, copts, fmt.Sprintf("inproc:0%s", method), true)
+	// the credentials' metadata belongs to the request only: the handler gets
+	// it as incoming metadata, but it does not become part of the stream's
+	// context, which the application can use for other calls (over channels
+	// these credentials were never meant for)
+	credsCtx, err := internal.ApplyPerRPCCreds(ctx, copts, fmt.Sprintf("inproc:0%s", method), true)
 	if err != nil {
 		return nil, err
 	}
@@ -368,7 +375,7 @@ func (c *Channel) NewStream(ctx context.Context, desc *grpc.StreamDesc, method s
 	responses := make(chan frame, 1)
 
 	// the server context which is cancelled when the server goroutine below exits
-	svrCtx, svrCancel := context.WithCancel(makeServerContext(ctx))
+	svrCtx, svrCancel := context.WithCancel(makeServerContext(ctx, credsCtx))
 
 	// a child context which is cancelled when the RPC completes, but before
 	// the server handler has sent its final messages (trailers and errors)
@@ -442,7 +449,10 @@ func asStatusError(err error) error {
 
 var clientContextKey = "holds a client context"
 
-func makeServerContext(ctx context.Context) context.Context {
+// makeServerContext returns the context for a handler: a child of ctx, the
+// context of the call, whose incoming metadata is the outgoing metadata of
+// mdCtx (the caller's context plus what per-RPC credentials added).
+func makeServerContext(ctx, mdCtx context.Context) context.Context {
 	// We don't want the server have any of the values in the client's context
 	// since that can inadvertently leak state from the client to the server.
 	// But we do want a child context, just so that request deadlines and client
@@ -453,7 +463,7 @@ func makeServerContext(ctx context.Context) context.Context {
 	// least the transport's own keys are there): code that checks the "ok" of
 	// metadata.FromIncomingContext must not fail just because the caller
 	// attached nothing
-	meta, _ := metadata.FromOutgoingContext(ctx)
+	meta, _ := metadata.FromOutgoingContext(mdCtx)
 	if meta == nil {
 		meta = metadata.MD{}
 	}
